@@ -6,6 +6,10 @@ function; the ORACLE recomputes every returned number from the recorded trajecto
 (`charging_rates`, `ev_history`) and the network description BY STATION ID / CONSTRAINT NAME,
 from the property statement, in exact rational / complex arithmetic; the MODEL (Lean,
 `AcnModel/Analysis.lean`) is fed the raw arrays the code reads and must return the same numbers.
+
+The network's constraint list has a HISTORY (`build` before the run, `post` after it: add / remove /
+update / rename / JSON round trips); the oracle's constraint table is what that history says the network is
+(`_spec_state`, from the API's documentation), never what the implementation's own index structures say.
 """
 from __future__ import annotations
 
@@ -21,7 +25,7 @@ from core.common import f2b, b2f, close
 from core import impl as I
 
 ID = "C18"
-LEAN_MODULES = ["AcnProofs.C18"]
+LEAN_MODULES = ["AcnProofs.C18", "AcnProofs.Lemmas.CodeTieAnalysis"]
 DRIVER = "drv_C18"
 REQUIRED_THEOREMS = [
     "Acn.C18.aggregate_current_def", "Acn.C18.aggregate_power_def",
@@ -30,7 +34,7 @@ REQUIRED_THEOREMS = [
     "Acn.C18.energy_metrics_def", "Acn.C18.nema_def", "Acn.C18.energy_cost_def",
     "Acn.C18.demand_charge_def", "Acn.C18.datetimes_def", "Acn.C18.spec_defs_are_sums",
 ]
-BUDGET = {"quick": 60, "thorough": 900, "search": 400}
+BUDGET = {"quick": 100, "thorough": 900, "search": 400}
 TRUSTED = [
     "numpy: ndarray.sum(axis), dot/@ (BLAS summation order), abs of complex (hypot), max/mean along an axis, "
     "fancy column indexing, vstack; datetime/timedelta/np.datetime64 arithmetic",
@@ -41,17 +45,31 @@ TRUSTED = [
 ASSUMPTIONS = [
     "theorems are over an arbitrary linear ordered field with an uninterpreted sqrt; the implementation computes "
     "in doubles (1e-9 abs+rel slack)",
-    "constraint names are pairwise distinct (add_constraint can produce a duplicate via `_v2`, DESIGN §8) and "
-    "the constraint matrix has one row per name (C12)",
-    "networks have at least one constraint (constraint_matrix is None otherwise: F3's territory, C06)",
+    "constraint names are pairwise distinct (add_constraint can produce a duplicate via a SECOND `_v2`, DESIGN §8; "
+    "the generator rejects edits that would) and the constraint matrix has one row per name (C12); the MODEL is "
+    "fed the matrix / name list the network holds after the whole edit history, the ORACLE derives the table "
+    "name -> coefficients from the edit history itself (add appends, `None` -> `_const_<n>`, an existing name -> "
+    "`_v2`, remove deletes, update = remove + add) and for shipped sites from the pristine matrix",
+    "only valid edits are generated (removing / updating an unknown name is C12's error path); a network JSON "
+    "round trip happens only before the run, a Simulator JSON round trip only after it",
+    "networks have at least one constraint (two, in generated cases) when the analysis is called "
+    "(constraint_matrix is None otherwise: F3's territory, C06)",
     "proportion_of_demands_met uses strict `<` as in the source; the oracle abstains when remaining == threshold",
 ]
 RULE = ("per case one completed real simulation: custom three-phase network (3-8 stations, heterogeneous voltages "
-        "and phase angles, 2-6 named constraints with mixed-sign / fractional / zero coefficients, names added in "
-        "non-sorted order) or a predefined site (caltech / jpl / office001) with few sessions; ideal and two-stage "
+        "and phase angles, 2-7 named constraints with mixed-sign / fractional / zero coefficients, names added in "
+        "non-sorted order) or a predefined site (caltech / jpl / office001) with few sessions; the constraint list "
+        "has an EDIT HISTORY: 1 in 4 custom networks only ever add constraints, the others (and 6 in 10 sites) go "
+        "through a random walk of add (fresh name / unnamed / duplicate name -> `_v2` / a previously removed name), "
+        "remove (first, middle, last), update in place, update with rename, network JSON round trip, and the LAST "
+        "edit before the run is drawn from {none, add, remove first / middle / last, update, rename, JSON} so every "
+        "kind of edit is often the most recent one; 35 % of the cases edit the network again AFTER the run "
+        "(add / remove / update / rename / Simulator JSON round trip) with constraint_currents called before and "
+        "after those edits; ideal and two-stage "
         "batteries; uncontrolled or scripted pilots; 5-40 periods; periods of 0.5-60 min; naive and tz-aware "
         "summer starts; then: aggregate current/power, constraint_currents for EVERY subset of the constraint "
-        "ids (custom) in shuffled order plus permutations, repeated ids, unknown ids, None, both flag values, "
+        "ids (custom) in shuffled order plus permutations, repeated ids, unknown ids (incl. names that were removed "
+        "or renamed away), ids as a tuple, None, both flag values, "
         "network.constraint_current with time_indices (negative, repeated, out of range), NEMA for id triples "
         "(incl. repeated / unknown / wrong length), energy totals and proportions with thresholds at and around "
         "every session's remaining demand, energy cost and demand charge under four tariff files, datetimes. "
@@ -117,9 +135,10 @@ def _gen_start(rng):
             "tz": rng.choice([None, None, "America/Los_Angeles", "UTC"])}
 
 
-def _gen_queries(rng, names, T, sites_phases=None):
+def _gen_queries(rng, names, T, sites_phases=None, ghosts=()):
     qs = []
     k = len(names)
+    unknown = ["nope", "", "A ", "b"] + 3 * list(ghosts)   # ids that were removed / renamed away are unknown ids
     subsets = []
     if k <= 6:
         for r in range(0, k + 1):
@@ -137,17 +156,31 @@ def _gen_queries(rng, names, T, sites_phases=None):
         m = rng.randint(1, min(k, 5) + 2)
         req = [rng.choice(names) for _ in range(m)]
         if rng.random() < 0.3:
-            req.insert(rng.randint(0, len(req)), rng.choice(["nope", "", "A ", "b"]))
+            req.insert(rng.randint(0, len(req)), rng.choice(unknown))
         qs.append({"q": "cc", "req": req, "ti": None, "mag": rng.random() < 0.5})
+    # names that used to denote a constraint (removed / renamed away) are unknown ids now: alone, next to a few
+    # live ids, and next to ALL live ids, at both levels
+    gl = list(dict.fromkeys(ghosts))
+    rng.shuffle(gl)
+    for g in gl[:3]:
+        req = rng.sample(names, rng.randint(1, min(k, 3)))
+        req.insert(rng.randint(0, len(req)), g)
+        qs.append({"q": "cc", "req": req, "ti": None, "mag": rng.random() < 0.5})
+        req = list(names) + [g]
+        rng.shuffle(req)
+        qs.append({"q": "cc", "req": req, "ti": None, "mag": rng.random() < 0.5})
+        qs.append({"q": "net", "req": [g] if rng.random() < 0.5 else [g, rng.choice(names)], "ti": None})
     full = list(names)
     rng.shuffle(full)
-    qs.append({"q": "cc", "req": full, "ti": None, "mag": False})
+    qs.append({"q": "cc", "req": full, "ti": None, "mag": False, "as": "tuple"})
     qs.append({"q": "cc", "req": list(reversed(names)), "ti": None, "mag": True})
     qs.append({"q": "cc", "req": None, "ti": None, "mag": True})
     qs.append({"q": "cc", "req": None, "ti": None, "mag": False})
     # network-level with time indices
     for _ in range(5):
         req = None if rng.random() < 0.2 else [rng.choice(names) for _ in range(rng.randint(1, min(k, 4) + 1))]
+        if req is not None and rng.random() < 0.35:
+            req.insert(rng.randint(0, len(req)), rng.choice(unknown))
         r = rng.random()
         if r < 0.15:
             ti = None
@@ -166,7 +199,7 @@ def _gen_queries(rng, names, T, sites_phases=None):
         triples.append(rng.sample(names, 3))
     r = rng.random()
     if r < 0.3:
-        triples.append([rng.choice(names), "nope", rng.choice(names)])
+        triples.append([rng.choice(names), rng.choice(unknown), rng.choice(names)])
     elif r < 0.5:
         triples.append([rng.choice(names) for _ in range(rng.choice([1, 2, 4]))])
     elif r < 0.55:
@@ -177,6 +210,228 @@ def _gen_queries(rng, names, T, sites_phases=None):
         qs.append({"q": "cost", "tariff": tn})
         qs.append({"q": "dc", "tariff": tn})
     return qs
+
+
+COEFFS = [1, 1, 1, -1, -1, 2, -2, 0.5, -0.5, 0.25, 0, 3]
+
+
+def _mixed(loads):
+    return loads is not None and len({math.copysign(1, v) for v in loads.values() if v != 0}) == 2
+
+
+def _gen_loads(rng, ids, mixed=False):
+    members = rng.sample(ids, rng.randint(2 if mixed else 1, len(ids)))
+    loads = {m: rng.choice(COEFFS) for m in members}
+    if mixed and not _mixed(loads):
+        a, b = rng.sample(members, 2)
+        loads[a], loads[b] = 1, -1
+    return loads
+
+
+# ---- constraint-list history, at the level of the API's documentation (independent of the code):
+#   add(name)     appends a constraint; name None -> "_const_<number of constraints>"; a name already
+#                 present -> name + "_v2" (with a warning)
+#   remove(name)  deletes it, the others keep their relative order
+#   update(name, ..., new_name) = remove(name) then add(new_name or name)
+#   json          the network is replaced by ChargingNetwork.from_json(network.to_json())   (before the run)
+#   simjson       the simulator is replaced by Simulator.from_json(sim.to_json())           (after the run)
+# state = list of [name, loads]; loads None = "as shipped by the site" (taken from the pristine matrix)
+
+def _spec_apply(state, op):
+    state = [list(x) for x in state]
+    names = [x[0] for x in state]
+    kind = op["op"]
+    if kind in ("json", "simjson"):
+        return state
+    if kind in ("remove", "update"):
+        if op["name"] not in names:
+            raise KeyError(op["name"])
+        del state[names.index(op["name"])]
+        names = [x[0] for x in state]
+        if kind == "remove":
+            return state
+        nm = op.get("new_name") if op.get("new_name") is not None else op["name"]
+    else:
+        nm = op.get("name")
+    if nm is None:
+        nm = "_const_{0}".format(len(names))
+    if nm in names:
+        nm += "_v2"
+    state.append([nm, dict(op["loads"])])
+    return state
+
+
+def _spec_state(ops, init=None):
+    state = [[n, None] for n in (init or [])]
+    for op in ops:
+        state = _spec_apply(state, op)
+    return state
+
+
+def _case_ops(case):
+    """(initial names or None, ops before the run, ops after the run) — old-style cases have `constraints` only"""
+    if "build" in case:
+        pre = case["build"]
+    elif case["kind"] == "custom":
+        pre = [{"op": "add", "name": c["name"], "loads": c["loads"], "limit": c["limit"]} for c in case["constraints"]]
+    else:
+        pre = []
+    return pre, case.get("post", [])
+
+
+TAILS = ["none", "none", "add", "remove_first", "remove_mid", "remove_mid", "remove_last", "update", "rename", "json"]
+
+
+def _gen_op(rng, state, ids, kind, ghosts):
+    """one valid op of the given kind on `state` (None when impossible); never produces a duplicate name"""
+    names = [x[0] for x in state]
+    limit = rng.choice([50, 100, 1000, 20])
+    if kind in ("json", "simjson"):
+        return {"op": kind}
+    if kind == "add":
+        r = rng.random()
+        free = [n for n in NAME_POOL if n not in names]
+        if r < 0.12:
+            nm = None
+        elif r < 0.24 and names:
+            nm = rng.choice(names)          # duplicate -> "_v2"
+        elif r < 0.4 and [g for g in ghosts if g not in names]:
+            nm = rng.choice([g for g in ghosts if g not in names])   # a name that was removed earlier comes back
+        elif free:
+            nm = rng.choice(free)
+        else:
+            return None
+        op = {"op": "add", "name": nm, "loads": _gen_loads(rng, ids, rng.random() < 0.4), "limit": limit}
+    elif kind.startswith("remove"):
+        if not names:
+            return None
+        if kind == "remove_first":
+            v = names[0]
+        elif kind == "remove_last":
+            v = names[-1]
+        elif kind == "remove_mid":
+            v = rng.choice(names[1:-1] if len(names) > 2 else names[:-1] if len(names) > 1 else names)
+        else:
+            v = rng.choice(names)
+        op = {"op": "remove", "name": v}
+    elif kind in ("update", "rename"):
+        if not names:
+            return None
+        v = rng.choice(names[:-1] if len(names) > 1 and rng.random() < 0.7 else names)
+        new = None
+        if kind == "rename":
+            cand = [n for n in NAME_POOL if n not in names] + [g for g in ghosts if g not in names]
+            if rng.random() < 0.15 and len(names) > 1:
+                cand = [n for n in names if n != v]   # renamed onto an existing name -> "_v2"
+            if not cand:
+                return None
+            new = rng.choice(cand)
+        op = {"op": "update", "name": v, "loads": _gen_loads(rng, ids, rng.random() < 0.4), "limit": limit, "new_name": new}
+    else:
+        raise ValueError(kind)
+    try:
+        after = [x[0] for x in _spec_apply(state, op)]
+    except KeyError:
+        return None
+    if len(set(after)) != len(after):
+        return None
+    return op
+
+
+def _gen_history(rng, ids, k, init=None, lo=2, hi=6):
+    """ops that leave between lo and hi (about k) distinct constraints; the LAST op is drawn from TAILS so that
+    every kind of edit is, often, the most recent thing that happened to the constraint list before the run"""
+    state = [[n, None] for n in (init or [])]
+    ops = []
+    ghosts = []
+    if init is not None:
+        hi = len(init) + 3
+
+    def push(kind):
+        op = _gen_op(rng, state, ids, kind, ghosts)
+        if op is None:
+            return False
+        before = {x[0] for x in state}
+        state[:] = _spec_apply(state, op)
+        ghosts.extend(sorted(before - {x[0] for x in state}))
+        ops.append(op)
+        return True
+
+    if init is None:
+        for _ in range(200):
+            if len(state) >= k:
+                break
+            push("add")
+        if rng.random() < 0.25:     # the plain case: constraints only ever added
+            return ops, state, ghosts, "none"
+    walk = rng.choice([0, 0, 1, 2, 3, 5]) if init is None else rng.choice([0, 1, 2, 3])
+    for _ in range(walk):
+        n = len(state)
+        kinds = ["update", "rename"]
+        if n < hi + 1:
+            kinds += ["add", "add"]
+        if n > lo:
+            kinds += ["remove", "remove", "remove_first"]
+        if rng.random() < 0.1:
+            kinds = ["json"]
+        push(rng.choice(kinds))
+    if init is None and not any(_mixed(x[1]) for x in state):
+        ops_before = len(ops)
+        if len(state) < hi:
+            op = {"op": "add", "name": rng.choice([n for n in NAME_POOL if n not in [x[0] for x in state]]),
+                  "loads": _gen_loads(rng, ids, True), "limit": 100}
+        else:
+            op = {"op": "update", "name": state[0][0], "loads": _gen_loads(rng, ids, True), "limit": 100, "new_name": None}
+        state[:] = _spec_apply(state, op)
+        ops.append(op)
+        assert len(ops) == ops_before + 1
+    tail = rng.choice(TAILS)
+    if tail.startswith("remove"):
+        for _ in range(200):
+            if len(state) >= max(lo + 1, 3):
+                break
+            push("add")
+    for _ in range(200):
+        if len(state) <= (hi + 1 if tail.startswith("remove") else hi):
+            break
+        push("remove")
+    if tail == "add" and len(state) >= hi:
+        tail = "update"
+    if tail != "none":
+        push(tail)
+    return ops, state, ghosts, tail
+
+
+def _gen_post(rng, state, ids, ghosts, lo=2, hi=7):
+    """0-2 edits AFTER the run (the analysis describes the network as it is when it is called)"""
+    ops = []
+    state = [list(x) for x in state]
+    ghosts = list(ghosts)
+    if rng.random() < 0.65:
+        return ops, state, ghosts
+    for _ in range(rng.choice([1, 1, 2])):
+        kinds = ["update", "rename", "simjson", "simjson"]
+        if len(state) > lo:
+            kinds += ["remove_first", "remove_mid", "remove_mid", "remove_last"]
+        if len(state) < hi:
+            kinds += ["add"]
+        op = _gen_op(rng, state, ids, rng.choice(kinds), ghosts)
+        if op is None:
+            continue
+        before = {x[0] for x in state}
+        state = _spec_apply(state, op)
+        ghosts.extend(sorted(before - {x[0] for x in state}))
+        ops.append(op)
+    return ops, state, ghosts
+
+
+def _gen_early(rng, names):
+    """a few constraint_currents calls made after the run but BEFORE the post-run edits"""
+    out = [{"req": None, "mag": True}]
+    for _ in range(3):
+        req = rng.sample(names, rng.randint(1, min(len(names), 4)))
+        out.append({"req": req, "mag": rng.random() < 0.5})
+    return out
 
 
 def _gen_custom(rng, tier):
@@ -195,28 +450,22 @@ def _gen_custom(rng, tier):
     rng.shuffle(stations)
     ids = [s["id"] for s in stations]
     k = rng.randint(2, 6)
-    names = rng.sample(NAME_POOL, k)
-    constraints = []
-    for nm in names:
-        members = rng.sample(ids, rng.randint(1, n))
-        loads = {m: rng.choice([1, 1, 1, -1, -1, 2, -2, 0.5, -0.5, 0.25, 0, 3]) for m in members}
-        constraints.append({"name": nm, "loads": loads, "limit": rng.choice([50, 100, 1000, 20])})
-    # at least one mixed-sign row
-    if not any(len({math.copysign(1, v) for v in c["loads"].values() if v != 0}) == 2 for c in constraints):
-        a, b = rng.sample(ids, 2)
-        constraints[0]["loads"][a] = 1
-        constraints[0]["loads"][b] = -1
+    build, state, ghosts, tail = _gen_history(rng, ids, k)
     sessions = _gen_sessions(rng, ids, horizon, min(n, 8))
     if rng.random() < 0.5:
         sched = {"t": "uncontrolled"}
     else:
         sched = {"t": "scripted", "pilots": {s["id"]: [rng.choice([0, s["max"], round(rng.uniform(0, s["max"]), 2), 8, 6.5])
                                                       for _ in range(horizon)] for s in stations}}
+    post, final, ghosts2 = _gen_post(rng, state, ids, ghosts)
     T = max(s["departure"] for s in sessions) + 1
-    return {"kind": "custom", "stations": stations, "constraints": constraints, "sessions": sessions,
+    names = [x[0] for x in final]
+    return {"kind": "custom", "stations": stations, "build": build, "post": post,
+            "early": _gen_early(rng, [x[0] for x in state]) if post else [],
+            "sessions": sessions,
             "period": rng.choice([1, 5, 5, 15, 3, 60, 0.5, 2.5]), "start": _gen_start(rng), "sched": sched,
             "thresholds": [0.1, 0, 1e-3, rng.choice([0.5, 5, 50, -1])],
-            "queries": _gen_queries(rng, names, T)}
+            "queries": _gen_queries(rng, names, T, ghosts=[g for g in ghosts2 if g not in names])}
 
 
 _SITE_CACHE = {}
@@ -233,20 +482,35 @@ def _site_info(site, voltage):
 def _gen_site(rng, tier):
     site = rng.choice(SITES)
     voltage = rng.choice([208, 208, 220, 240])
-    st_ids, names = _site_info(site, voltage)
+    st_ids, names0 = _site_info(site, voltage)
     horizon = rng.randint(5, 20)
-    sessions = _gen_sessions(rng, rng.sample(st_ids, min(len(st_ids), 6)), horizon, 5)
+    used = rng.sample(st_ids, min(len(st_ids), 6))
+    sessions = _gen_sessions(rng, used, horizon, 5)
     T = max(s["departure"] for s in sessions) + 1
+    build, state, ghosts, post = [], [[n, None] for n in names0], [], []
+    if rng.random() < 0.6:
+        # the shipped constraint list edited before the run (a panel removed / re-rated / added)
+        pool = used + rng.sample(st_ids, min(len(st_ids), 4))
+        build, state, ghosts, _ = _gen_history(rng, sorted(set(pool)), len(names0), init=names0, lo=len(names0) - 3)
+        if rng.random() < 0.4:
+            post, state2, ghosts = _gen_post(rng, state, sorted(set(pool)), ghosts, lo=len(names0) - 3, hi=len(names0) + 4)
+        else:
+            state2 = state
+    else:
+        state2 = state
+    names = [x[0] for x in state2]
     phases = []
     for cand in (["Secondary A", "Secondary B", "Secondary C"], ["Primary A", "Primary B", "Primary C"],
                  ["Third Floor Primary A", "Third Floor Primary B", "Third Floor Primary C"]):
         if all(c in names for c in cand):
             phases.append(cand)
             phases.append(list(reversed(cand)))
-    return {"kind": "site", "site": site, "voltage": voltage, "sessions": sessions,
+    return {"kind": "site", "site": site, "voltage": voltage, "build": build, "post": post,
+            "early": _gen_early(rng, [x[0] for x in state]) if post else [],
+            "sessions": sessions,
             "period": rng.choice([5, 5, 1, 15]), "start": _gen_start(rng), "sched": {"t": "uncontrolled"},
             "thresholds": [0.1, 0, rng.choice([0.5, 5, 50])],
-            "queries": _gen_queries(rng, names, T, phases)}
+            "queries": _gen_queries(rng, names, T, phases, ghosts=[g for g in ghosts if g not in names])}
 
 
 def corpus():
@@ -275,7 +539,36 @@ def corpus():
     c2["queries"] = qs[:4] + [{"q": "nema", "ids": ["AB", "BC", "all"]}, {"q": "dc", "tariff": "sce_tou_ev_8_june_2019"}]
     c2["period"] = 15
     c2["start"] = {"y": 2019, "mo": 8, "d": 31, "h": 23, "mi": 59, "s": 30, "tz": "America/Los_Angeles"}
-    return [c1, c2]
+    # constraint lists with a HISTORY: the last thing that happened before the run is the removal of the first
+    # constraint (every later one moves up a row); edits after the run with calls before and after them;
+    # a re-used name; JSON round trips of the network and of the finished simulation
+    hq = [{"q": "cc", "req": ["all"], "ti": None, "mag": True}, {"q": "cc", "req": ["all", "AB"], "ti": None, "mag": False},
+          {"q": "cc", "req": ["AB"], "ti": None, "mag": True}, {"q": "cc", "req": ["BC", "AB"], "ti": None, "mag": True},
+          {"q": "cc", "req": None, "ti": None, "mag": True}, {"q": "net", "req": ["all"], "ti": [3, -1]},
+          {"q": "nema", "ids": ["AB", "all", "AB"]}, {"q": "cc", "req": ["all", "BC"], "ti": None, "mag": True, "as": "tuple"}]
+    adds = [{"op": "add", "name": c["name"], "loads": c["loads"], "limit": c["limit"]} for c in cons]
+    c3 = {k: v for k, v in c1.items() if k != "constraints"}
+    c3.update({"build": adds + [{"op": "remove", "name": "BC"}], "post": [], "early": [], "queries": hq})
+    c4 = dict(c3)
+    c4.update({"build": adds + [{"op": "json"}],
+               "post": [{"op": "remove", "name": "AB"}, {"op": "simjson"}],
+               "early": [{"req": None, "mag": True}, {"req": ["all", "AB"], "mag": False}],
+               "queries": [q for q in hq if q["q"] != "nema"] + [{"q": "nema", "ids": ["BC", "all", "BC"]}]})
+    c5 = dict(c3)
+    c5.update({"build": adds + [{"op": "update", "name": "BC", "loads": {"S0": -1, "S3": 2}, "limit": 40, "new_name": None},
+                                {"op": "remove", "name": "AB"},
+                                {"op": "add", "name": "AB", "loads": {"S2": 1, "S3": -0.5}, "limit": 30},
+                                {"op": "add", "name": None, "loads": {"S1": 1}, "limit": 30},
+                                {"op": "add", "name": "all", "loads": {"S0": 0.25, "S1": -2}, "limit": 30},
+                                {"op": "remove", "name": "all"}],
+               "post": [{"op": "update", "name": "BC", "loads": {"S1": 1, "S2": -1}, "limit": 40, "new_name": "Z"}],
+               "early": [{"req": ["BC", "all_v2"], "mag": True}],
+               "queries": [{"q": "cc", "req": ["Z", "all_v2", "BC", "_const_3", "all"], "ti": None, "mag": True},
+                           {"q": "cc", "req": ["AB", "Z"], "ti": None, "mag": False},
+                           {"q": "cc", "req": None, "ti": None, "mag": False},
+                           {"q": "net", "req": ["_const_3", "AB"], "ti": None},
+                           {"q": "nema", "ids": ["Z", "AB", "all_v2"]}, {"q": "nema", "ids": ["Z", "BC", "AB"]}]})
+    return [c1, c2, c3, c4, c5]
 
 
 def generate(rng, n, tier):
@@ -336,10 +629,27 @@ def run_impl(case):
         net = ChargingNetwork()
         for s in case["stations"]:
             net.register_evse(EVSE(s["id"], max_rate=s["max"]), s["V"], s["angle"])
-        for c in case["constraints"]:
-            net.add_constraint(Current(dict(c["loads"])), c["limit"], name=c["name"])
     else:
         net = _make_site(case["site"], case["voltage"])
+    names0 = list(net.constraint_index)
+    M0 = None if net.constraint_matrix is None else np.array(net.constraint_matrix, dtype=float).tolist()
+    pre_ops, post_ops = _case_ops(case)
+
+    def edit(net, op):
+        if op["op"] == "add":
+            net.add_constraint(Current(dict(op["loads"])), op["limit"], name=op["name"])
+        elif op["op"] == "remove":
+            net.remove_constraint(op["name"])
+        elif op["op"] == "update":
+            net.update_constraint(op["name"], Current(dict(op["loads"])), op["limit"], new_name=op.get("new_name"))
+        elif op["op"] == "json":
+            net = ChargingNetwork.from_json(net.to_json())
+        else:
+            raise RuntimeError(op["op"])
+        return net
+
+    for op in pre_ops:
+        net = edit(net, op)
 
     evs = [I.make_ev(s) for s in case["sessions"]]
     queue = EventQueue([PluginEvent(e.arrival, e) for e in evs])
@@ -364,6 +674,29 @@ def run_impl(case):
     sim.run()
     assert sim.event_queue.empty()
 
+    def cc_call(req, mag, as_tuple=False):
+        # NOTE the flag's polarity is inverted in the code (DESIGN §8): True -> complex
+        ids_arg = None if req is None else (tuple(req) if as_tuple else list(req))
+        d = analysis.constraint_currents(sim, return_magnitudes=not mag, constraint_ids=ids_arg)
+        if mag:
+            return {"ok": sorted([k, [float(x) for x in v]] for k, v in d.items()),
+                    "dtype_complex": bool(any(np.iscomplexobj(v) for v in d.values()))}
+        return {"ok": sorted([k, [_c(x) for x in v]] for k, v in d.items())}
+
+    # calls made BEFORE the post-run edits (they must not influence what is answered after the edits)
+    early = []
+    for q in case.get("early", []):
+        try:
+            early.append(cc_call(q["req"], q["mag"]))
+        except (KeyError, IndexError, ValueError, ZeroDivisionError, TypeError) as e:
+            early.append({"err": _err(e)})
+    for op in post_ops:
+        if op["op"] == "simjson":
+            sim = Simulator.from_json(sim.to_json())
+        else:
+            edit(sim.network, op)
+    net = sim.network
+
     R = np.array(sim.charging_rates, dtype=float)
     ang = np.exp(1j * np.deg2rad(net._phase_angles))
     hist = list(sim.ev_history.values())
@@ -375,12 +708,13 @@ def run_impl(case):
         "evs": [[ev.session_id, float(ev.requested_energy), float(ev.energy_delivered), float(ev.remaining_demand)] for ev in hist],
         "iteration": int(sim.iteration), "period": case["period"],
         "M_dtype": str(np.asarray(net.constraint_matrix).dtype),
+        "names0": names0, "M0": M0,
     }
     epoch = np.datetime64("1970-01-01T00:00:00.000000")
     naive = start.replace(tzinfo=None)
     raw["start_us"] = int((np.datetime64(naive) - epoch) / np.timedelta64(1, "us"))
 
-    obs = {"raw": raw}
+    obs = {"raw": raw, "early": early}
     obs["agg_current"] = [float(x) for x in analysis.aggregate_current(sim)]
     obs["agg_power"] = [float(x) for x in analysis.aggregate_power(sim)]
     obs["tot_req"] = float(analysis.total_energy_requested(sim))
@@ -415,14 +749,7 @@ def run_impl(case):
         kind = q["q"]
         try:
             if kind == "cc":
-                # NOTE the flag's polarity is inverted in the code (DESIGN §8): True -> complex
-                d = analysis.constraint_currents(sim, return_magnitudes=not q["mag"],
-                                                 constraint_ids=None if q["req"] is None else list(q["req"]))
-                if q["mag"]:
-                    a = {"ok": sorted([k, [float(x) for x in v]] for k, v in d.items()),
-                         "dtype_complex": bool(any(np.iscomplexobj(v) for v in d.values()))}
-                else:
-                    a = {"ok": sorted([k, [_c(x) for x in v]] for k, v in d.items())}
+                a = cc_call(q["req"], q["mag"], q.get("as") == "tuple")
             elif kind == "net":
                 m = net.constraint_current(sim.charging_rates, constraints=None if q["req"] is None else list(q["req"]),
                                            time_indices=None if q["ti"] is None else list(q["ti"]))
@@ -448,8 +775,11 @@ def run_impl(case):
         answers.append(a)
     obs["answers"] = answers
     # default-argument call (no ids, default flag): magnitudes for every constraint
-    d = analysis.constraint_currents(sim)
-    obs["cc_default"] = sorted([k, [float(x) for x in v]] for k, v in d.items())
+    try:
+        d = analysis.constraint_currents(sim)
+        obs["cc_default"] = sorted([k, [float(x) for x in v]] for k, v in d.items())
+    except (KeyError, IndexError, ValueError, ZeroDivisionError, TypeError) as e:
+        obs["cc_default"] = {"err": _err(e)}
     return obs
 
 
@@ -582,17 +912,28 @@ def _F(x):
     return Fraction(x)
 
 
-def _net_by_name(case, raw):
-    """station id -> (voltage, angle); constraint name -> {station id: coefficient}"""
+def _net_by_name(case, raw, early=False):
+    """station id -> (voltage, angle); constraint name -> {station id: coefficient}.
+
+    The constraint table is what the case's edit history SAYS the network is (`_spec_state`): the constraints
+    that were added / updated and not removed since, under the names the API documents; for a shipped site the
+    untouched constraints are read off the pristine matrix (before any edit) by name."""
+    ids = raw["station_ids"]
     if case["kind"] == "custom":
         st = {s["id"]: (s["V"], s["angle"]) for s in case["stations"]}
-        cons = {c["name"]: dict(c["loads"]) for c in case["constraints"]}
     else:
-        ids = raw["station_ids"]
         st = {sid: (raw["V"][i], raw["angles"][i]) for i, sid in enumerate(ids)}
-        cons = {}
-        for k, nm in enumerate(raw["names"]):
-            cons.setdefault(nm, {sid: raw["M"][k][j] for j, sid in enumerate(ids) if raw["M"][k][j] != 0})
+    names0 = raw.get("names0") or []
+    if case["kind"] == "site" and "names0" not in raw:   # replays recorded before histories existed
+        names0 = raw["names"]
+        raw = dict(raw, M0=raw["M"])
+    shipped = {}
+    for k, nm in enumerate(names0):
+        shipped.setdefault(nm, {sid: raw["M0"][k][j] for j, sid in enumerate(ids) if raw["M0"][k][j] != 0})
+    pre, post = _case_ops(case)
+    cons = {}
+    for nm, loads in _spec_state(pre if early else pre + post, names0):
+        cons.setdefault(nm, shipped[nm] if loads is None else dict(loads))
     return st, cons
 
 
@@ -671,9 +1012,14 @@ def oracle(case, obs):
         fails.append({"kind": "datetimes_wrong", "detail": f"len={len(got)} expected len={len(want)}; first={got[:3]} expected={[float(w) for w in want[:3]]}"})
 
     names = raw["names"]
+    if sorted(names) != sorted(cons):
+        fails.append({"kind": "constraint_set_not_as_edited",
+                      "detail": f"network.constraint_index={names} but the edit history leaves {list(cons)}"})
+        return fails
 
-    def check_dict(where, got_pairs, req, mag):
-        want_keys = sorted(set(names) if req is None else set(n for n in req if n in names))
+    def check_dict(where, got_pairs, req, mag, cons=cons):
+        known = set(cons)
+        want_keys = sorted(known if req is None else set(n for n in req if n in known))
         if [k for k, _ in got_pairs] != want_keys:
             fails.append({"kind": "constraint_currents_keys_wrong", "detail": f"{where}: keys={[k for k, _ in got_pairs]} expected={want_keys}"})
             return
@@ -689,8 +1035,18 @@ def oracle(case, obs):
                                   "detail": f"{where}: result[{k!r}][{t}]={v[t]} expected={abs(z) if mag else z}"})
                     return
 
-    if len(set(names)) == len(names):
+    if isinstance(obs["cc_default"], dict):
+        fails.append({"kind": "constraint_currents_raised", "detail": f"constraint_currents(sim): {obs['cc_default']}"})
+    elif len(set(names)) == len(names):
         check_dict("constraint_currents(sim)", obs["cc_default"], None, True)
+    if case.get("early"):
+        _, cons_early = _net_by_name(case, raw, early=True)
+        for i, (q, a) in enumerate(zip(case["early"], obs.get("early", []))):
+            where = f"before the post-run edits: constraint_currents({q['req']})"
+            if "err" in a:
+                fails.append({"kind": "constraint_currents_raised", "detail": f"{where}: {a}"})
+                continue
+            check_dict(where, a["ok"], q["req"], q["mag"], cons_early)
     for i, (q, a) in enumerate(zip(case["queries"], obs["answers"])):
         where = f"query {i} {q}"
         if q["q"] == "cc":
@@ -802,6 +1158,26 @@ def features(case, obs):
            "tz:" + str(case["start"].get("tz"))]
     if case["kind"] == "site":
         out.append("site:" + case["site"])
+    pre, post = _case_ops(case)
+    for tag, ops in (("pre", pre), ("post", post)):
+        state = _spec_state([], (obs.get("raw") or {}).get("names0") or []) if tag == "pre" else state
+        last = "none"
+        for op in ops:
+            kind = op["op"]
+            if kind == "remove":
+                nm = [x[0] for x in state]
+                pos = nm.index(op["name"])
+                kind = "remove-last" if pos == len(nm) - 1 else "remove-first" if pos == 0 else "remove-middle"
+            elif kind == "update" and op.get("new_name") is not None:
+                kind = "rename"
+            elif kind == "add" and (op["name"] is None or op["name"] in [x[0] for x in state]):
+                kind = "add-unnamed" if op["name"] is None else "add-duplicate"
+            state = _spec_apply(state, op)
+            if not (tag == "pre" and kind == "add" and "build" not in case):
+                out.append(f"hist:{tag}:{kind}")
+            last = kind
+        # the most recent edit of the constraint list before the run / before the analysis
+        out.append(f"hist:{tag}:last=" + (last if ops and ("build" in case or tag == "post") else "none"))
     if "raw" not in obs:
         return out + ["impl_exception"]
     raw = obs["raw"]
